@@ -66,7 +66,7 @@ def run_selftest(prop, rules=None):
         return 0
     with open(EXPECT) as f:
         exp = json.load(f)
-    mine = {k: v for k, v in exp.items() if v["property"] == prop}
+    mine = {k: v for k, v in exp.items() if v["property"] == prop or prop in v.get("also", [])}
     if not mine:
         print("selftest property=%s: no mutants registered" % prop)
         return 0
